@@ -27,217 +27,7 @@ import (
 	nodestorage "github.com/bloxapp/ssv/operator/storage"
 	ssvtypes "github.com/bloxapp/ssv/protocol/v2/types"
 	registrystorage "github.com/bloxapp/ssv/registry/storage"
-	"github.com/bloxapp/ssv/storage/basedb"
 )
-
-// ------------------------------------------------------------------ transactional key-value store
-
-type zzCrash struct{}
-
-type zzDB struct {
-	data    map[string][]byte
-	order   []string
-	effects int // side-effecting calls so far (set / delete / commit / key-manager calls)
-	failAt  int // the failAt-th effect fails (1-based, 0 = none)
-	crash   bool
-}
-
-func (d *zzDB) effect() error {
-	d.effects++
-	if d.effects == d.failAt {
-		if d.crash {
-			panic(zzCrash{})
-		}
-		return errors.New("zz: storage failure")
-	}
-	return nil
-}
-
-// badger semantics: the stored key is prefix followed by key; prefix scans match on the byte prefix
-func zzKey(prefix, key []byte) string { return string(prefix) + string(key) }
-
-func (d *zzDB) put(k string, v []byte) {
-	if _, ok := d.data[k]; !ok {
-		d.order = append(d.order, k)
-	}
-	d.data[k] = v
-}
-func (d *zzDB) del(k string) {
-	if _, ok := d.data[k]; ok {
-		delete(d.data, k)
-		for i, o := range d.order {
-			if o == k {
-				d.order = append(d.order[:i:i], d.order[i+1:]...)
-				break
-			}
-		}
-	}
-}
-
-func (d *zzDB) Get(prefix []byte, key []byte) (basedb.Obj, bool, error) {
-	v, ok := d.data[zzKey(prefix, key)]
-	if !ok {
-		return basedb.Obj{}, false, nil
-	}
-	return basedb.Obj{Key: key, Value: v}, true, nil
-}
-func (d *zzDB) GetMany(prefix []byte, keys [][]byte, it func(basedb.Obj) error) error {
-	for _, k := range keys {
-		if v, ok := d.data[zzKey(prefix, k)]; ok {
-			if err := it(basedb.Obj{Key: k, Value: v}); err != nil {
-				return err
-			}
-		}
-	}
-	return nil
-}
-func (d *zzDB) GetAll(prefix []byte, handler func(int, basedb.Obj) error) error {
-	i := 0
-	p := string(prefix)
-	for _, k := range d.order {
-		if len(k) >= len(p) && k[:len(p)] == p {
-			if err := handler(i, basedb.Obj{Key: []byte(k[len(p):]), Value: d.data[k]}); err != nil {
-				return err
-			}
-			i++
-		}
-	}
-	return nil
-}
-func (d *zzDB) Set(prefix []byte, key []byte, value []byte) error {
-	if err := d.effect(); err != nil {
-		return err
-	}
-	d.put(zzKey(prefix, key), value)
-	return nil
-}
-func (d *zzDB) SetMany(prefix []byte, n int, next func(int) (basedb.Obj, error)) error {
-	for i := 0; i < n; i++ {
-		o, err := next(i)
-		if err != nil {
-			return err
-		}
-		if err := d.Set(prefix, o.Key, o.Value); err != nil {
-			return err
-		}
-	}
-	return nil
-}
-func (d *zzDB) Delete(prefix []byte, key []byte) error {
-	if err := d.effect(); err != nil {
-		return err
-	}
-	d.del(zzKey(prefix, key))
-	return nil
-}
-func (d *zzDB) Begin() basedb.Txn         { return &zzTxn{db: d, writes: map[string][]byte{}, dels: map[string]bool{}} }
-func (d *zzDB) BeginRead() basedb.ReadTxn { return &zzTxn{db: d, writes: map[string][]byte{}, dels: map[string]bool{}} }
-func (d *zzDB) Using(rw basedb.ReadWriter) basedb.ReadWriter {
-	if rw == nil {
-		return d
-	}
-	return rw
-}
-func (d *zzDB) UsingReader(r basedb.Reader) basedb.Reader {
-	if r == nil {
-		return d
-	}
-	return r
-}
-func (d *zzDB) CountPrefix(prefix []byte) (int64, error) { return 0, nil }
-func (d *zzDB) DeletePrefix(prefix []byte) (int, error)  { return 0, nil }
-func (d *zzDB) DropPrefix(prefix []byte) error           { return nil }
-func (d *zzDB) Update(fn func(basedb.Txn) error) error {
-	t := d.Begin()
-	if err := fn(t); err != nil {
-		t.Discard()
-		return err
-	}
-	return t.Commit()
-}
-func (d *zzDB) Close() error { return nil }
-
-type zzTxn struct {
-	db     *zzDB
-	writes map[string][]byte
-	worder []string
-	dels   map[string]bool
-	done   bool
-}
-
-func (t *zzTxn) Get(prefix []byte, key []byte) (basedb.Obj, bool, error) {
-	k := zzKey(prefix, key)
-	if t.dels[k] {
-		return basedb.Obj{}, false, nil
-	}
-	if v, ok := t.writes[k]; ok {
-		return basedb.Obj{Key: key, Value: v}, true, nil
-	}
-	return t.db.Get(prefix, key)
-}
-func (t *zzTxn) GetMany(prefix []byte, keys [][]byte, it func(basedb.Obj) error) error {
-	for _, k := range keys {
-		o, ok, _ := t.Get(prefix, k)
-		if ok {
-			if err := it(o); err != nil {
-				return err
-			}
-		}
-	}
-	return nil
-}
-func (t *zzTxn) GetAll(prefix []byte, handler func(int, basedb.Obj) error) error {
-	return t.db.GetAll(prefix, handler) // (not used inside block transactions)
-}
-func (t *zzTxn) Set(prefix []byte, key []byte, value []byte) error {
-	if err := t.db.effect(); err != nil {
-		return err
-	}
-	k := zzKey(prefix, key)
-	if _, ok := t.writes[k]; !ok {
-		t.worder = append(t.worder, k)
-	}
-	t.writes[k] = value
-	delete(t.dels, k)
-	return nil
-}
-func (t *zzTxn) SetMany(prefix []byte, n int, next func(int) (basedb.Obj, error)) error {
-	for i := 0; i < n; i++ {
-		o, err := next(i)
-		if err != nil {
-			return err
-		}
-		if err := t.Set(prefix, o.Key, o.Value); err != nil {
-			return err
-		}
-	}
-	return nil
-}
-func (t *zzTxn) Delete(prefix []byte, key []byte) error {
-	if err := t.db.effect(); err != nil {
-		return err
-	}
-	k := zzKey(prefix, key)
-	delete(t.writes, k)
-	t.dels[k] = true
-	return nil
-}
-func (t *zzTxn) Commit() error {
-	if err := t.db.effect(); err != nil {
-		return err
-	}
-	for k := range t.dels {
-		t.db.del(k)
-	}
-	for _, k := range t.worder {
-		if v, ok := t.writes[k]; ok {
-			t.db.put(k, v)
-		}
-	}
-	t.done = true
-	return nil
-}
-func (t *zzTxn) Discard() { t.done = true }
 
 // ------------------------------------------------------------------ fakes
 
